@@ -13,8 +13,10 @@ Models, the way the navis code does it:
   rescaled unit: *which* prefix is pint's choice (external) and is an argument `p` of the model
   (`Units.compact`); every theorem holds for every `p`.
 * `BaseNeuron.convert_units`, `BaseNeuron.map_units` / `core_utils.to_neuron_space`, `utils.round_smart`.
-* the metadata flow `(units, name, id)` through `__init__`, `copy`, re-initialisation from a neuron
-  (`TreeNeuron(x)`, `x.__init__(prox)` in `prune_distal_to` / `prune_proximal_to`), functions working on a copy,
+* the metadata flow `(units, name, id)` through `__init__` (as of navis commit 4ae0b05: the final
+  `self.units = units` is skipped when `units is None` and the object already carries units), `copy`,
+  re-initialisation from a neuron (`TreeNeuron(x)`, `x.__init__(prox)` in `prune_distal_to` /
+  `prune_proximal_to`), construction from a table, functions working on a copy,
   constructors that pass `units=x.units, name=x.name, id=x.id`, and pickling.
 -/
 namespace Navis.Units
@@ -309,14 +311,33 @@ def dictUpdate (_x src : Neuron) : Neuron := src
 /-- `BaseNeuron.copy` / `TreeNeuron.copy` / …: `x = cls(None); x.__dict__.update(copies of self.__dict__)` -/
 def copy (n : Neuron) (freshId : Int) : Neuron := dictUpdate (fresh n.kind freshId) n
 
+/-- Last statement of `TreeNeuron.__init__` / `MeshNeuron.__init__` (since navis commit 4ae0b05):
+`if units is not None or not hasattr(self, '_unit_str'): self.units = units`.
+`cur` = the units the object already carries (`none`: no `_unit_str` yet — construction from a table);
+`arg` = the `units=` argument (`none`: the default `None`).  `Option.none` result = the setter raises. -/
+def assignUnits (cur : Option Units) (arg : Option (List UnitArg)) : Option Units :=
+  match arg, cur with
+  | Option.none, some u => some u
+  | Option.none, Option.none => setUnits [.none]
+  | some a, _ => setUnits a
+
 /-- `TreeNeuron.__init__(self, x: TreeNeuron, units=unitsArg)` — also `MeshNeuron(x)` — and the explicit
 re-initialisation `x.__init__(prox)`: `super().__init__()` (fresh id), `self.__dict__.update(x.copy().__dict__)`
-(everything copied, units included), keyword metadata, and last `self.units = units` with the *argument*
-(default `None`), which overwrites the copied units. -/
-def reinit (n : Neuron) (unitsArg : List UnitArg) (freshId freshId' : Int) : Option Neuron :=
-  match setUnits unitsArg with
+(everything copied, units included), keyword metadata, and last `assignUnits`: the copied units stay unless
+`units=` is given explicitly. -/
+def reinit (n : Neuron) (unitsArg : Option (List UnitArg)) (freshId freshId' : Int) : Option Neuron :=
+  let src := dictUpdate (fresh n.kind freshId) (copy n freshId')
+  match assignUnits (some src.units) unitsArg with
   | Option.none => Option.none
-  | some u => some { dictUpdate (fresh n.kind freshId) (copy n freshId') with units := u }
+  | some u => some { src with units := u }
+
+/-- `TreeNeuron(table, units=unitsArg, name=…, id=…)` (and the array constructors of the other types): a fresh
+object (no `_unit_str`), the data, keyword metadata, then `assignUnits`: the default gives `1 dimensionless`. -/
+def fromTable (k : Kind) (pts : List V3) (radii : List Rat) (conns : List V3) (unitsArg : Option (List UnitArg))
+    (name : String) (id : Int) : Option Neuron :=
+  match assignUnits Option.none unitsArg with
+  | Option.none => Option.none
+  | some u => some ⟨k, pts, radii, conns, V3.rep 0, u, name, id⟩
 
 /-- Edits of the *data* (node table, vertices, connectors …) that functions perform on their working copy. -/
 structure DataEdit where
@@ -340,12 +361,10 @@ inductive Op where
   | construct (k : Kind) (e : DataEdit)
   /-- `pickle.loads(pickle.dumps(x))`: `__dict__` minus callables / graphs -/
   | pickle
-  /-- `cls(x)`: re-wrapping in the own class with the default `units=None` -/
+  /-- `cls(x)`: re-wrapping in the own class with the default `units=None` (`TreeNeuron(x)`, `MeshNeuron(x)`) -/
   | rewrap
   /-- `TreeNeuron.prune_distal_to` / `prune_proximal_to`: copy, cut (on a copy), `x.__init__(piece)` -/
   | reinitAfterCut (e : DataEdit)
-  /-- the same with the units passed on: `x.__init__(piece, units=piece.units)` (what a repair would do) -/
-  | reinitKeepUnits (e : DataEdit)
 
 /-- the unit of `n` as an argument of the setter (a pint quantity per axis, or one if isometric) -/
 def unitsAsArg (u : Units) : List UnitArg :=
@@ -361,17 +380,8 @@ def applyOp (n : Neuron) (ids : Int × Int × Int) : Op → Option Neuron
     | some u => some { applyEdit { fresh k ids.1 with pts := n.pts, radii := n.radii, conns := n.conns } e with
                        units := u, name := n.name, id := n.id }
   | .pickle => some (dictUpdate (fresh n.kind ids.1) n)
-  | .rewrap => reinit n [.none] ids.1 ids.2.1
-  | .reinitAfterCut e => reinit (applyEdit (copy (copy n ids.1) ids.2.1) e) [.none] ids.2.2 ids.1
-  | .reinitKeepUnits e =>
-    let piece := applyEdit (copy (copy n ids.1) ids.2.1) e
-    reinit piece (unitsAsArg piece.units) ids.2.2 ids.1
-
-/-- operations whose model never goes through a re-initialisation with the default `units=None` -/
-def Op.keepsUnitsArg : Op → Bool
-  | .rewrap => false
-  | .reinitAfterCut _ => false
-  | _ => true
+  | .rewrap => reinit n Option.none ids.1 ids.2.1
+  | .reinitAfterCut e => reinit (applyEdit (copy (copy n ids.1) ids.2.1) e) Option.none ids.2.2 ids.1
 
 /-! ## Decidable comparison used by the driver (tolerance in `Rat`) -/
 
